@@ -130,11 +130,26 @@ fn all_shared(env: &BDDEnv<NamedSymbol>, n: &N) -> bool {
 }
 
 fn run_op_in(env: &BDDEnv<NamedSymbol>, tok: &[&str], share: bool) -> String {
+    run_op_full(env, tok, share, true)
+}
+
+/// `own` = false: the operands are canonical diagrams that are NOT owned by this environment (as diagrams coming from
+/// another environment, from `BDD::from`, or built with the public constructors are)
+fn run_op_full(env: &BDDEnv<NamedSymbol>, tok: &[&str], share: bool, own: bool) -> String {
     let name = tok[0];
     let k: usize = tok[1].parse().unwrap();
     let ids: Vec<usize> = if k == 0 { vec![] } else { tok[2].split(',').map(|x| x.parse().unwrap()).collect() };
     let ntt: usize = tok[3].parse().unwrap();
-    let ops: Vec<N> = (0..ntt).map(|i| intern(&env, &canon(&parse_tt(tok[4 + i]), &ids))).collect();
+    let ops: Vec<N> = (0..ntt)
+        .map(|i| {
+            let raw = canon(&parse_tt(tok[4 + i]), &ids);
+            if own {
+                intern(env, &raw)
+            } else {
+                raw
+            }
+        })
+        .collect();
     let ex = &tok[4 + ntt..];
     let before: Vec<String> = ops.iter().map(ser).collect();
     let res: N = match name {
@@ -270,6 +285,18 @@ fn run_formula(tok: &[&str]) -> String {
                     }
                 }
                 return format!("ok vars={} free={} support={}", vars.join(","), free.join(","), if only(&r, &fids) { 1 } else { 0 });
+            }
+            if mode == "evaltwice" {
+                // the same formula evaluated twice in its environment: the second answer is reported
+                let _first = pf.eval();
+                let r = pf.eval();
+                return format!(
+                    "ok tt={} wf={} free={} dia={}",
+                    tt_of(&r, &ord_ids),
+                    if wf(&r, None, &ord_ids) { 1 } else { 0 },
+                    free.join(","),
+                    ser(&r).replace(' ', "_")
+                );
             }
             if mode == "evalall" {
                 // value of the evaluated diagram under every assignment of the ordering's ids (ascending id order)
@@ -414,6 +441,19 @@ fn main() {
         }
         let res = panic::catch_unwind(|| match tok[0] {
             "op" => run_op(&tok[1..]),
+            "rawop" => {
+                let env = BDDEnv::<NamedSymbol>::new();
+                run_op_full(&env, &tok[1..], false, false)
+            }
+            "symhash" => {
+                // two symbols with the same id and different names: equal (by the crate's Eq) values must hash equally
+                let id: usize = tok[1].parse().unwrap();
+                let a = NamedSymbol { name: Rc::new(tok[2].to_string()), id };
+                let b = NamedSymbol { name: Rc::new(tok[3].to_string()), id };
+                let na: BDD<NamedSymbol> = BDD::Choice(Rc::new(BDD::True), a.clone(), Rc::new(BDD::False));
+                let nb: BDD<NamedSymbol> = BDD::Choice(Rc::new(BDD::True), b.clone(), Rc::new(BDD::False));
+                format!("ok eq={} hasheq={}", if na == nb { 1 } else { 0 }, if na.get_hash() == nb.get_hash() { 1 } else { 0 })
+            }
             "share" => {
                 let env = BDDEnv::<NamedSymbol>::new();
                 run_op_in(&env, &tok[1..], true)
